@@ -37,7 +37,7 @@ RULE = ('one evaluation = one simulated run: a victim client performs a short se
 ASSUMPTIONS = ['the holder is a raw connection holding BEGIN IMMEDIATE (what a long transaction, check() or a slow writer in another process looks like)',
                'SQLite busy timeout is emulated event-driven in virtual time']
 PROBES = ('lock_taken', 'timeout_raised', 'failure_value', 'retry_waited', 'lock_before_begin_after_file', 'lockfree_lookup_under_lock',
-          'bulk_partial_timeout', 'replaced_under_lookup')
+          'bulk_partial_timeout', 'replaced_under_lookup', 'open_with_transient_busy', 'open_failed_loudly')
 TECHNIQUE = 'deterministic simulation with lock-contention injection: lock acquisition point enumerated over the seam events of the call, virtual-time busy timeout, before/after physical state comparison'
 LEVEL_TEXT = ('fault enumeration: calls are sampled by seed; for each call the instant at which another connection takes the write '
               'lock is enumerated over every seam event of the call (thorough tier) and the hold time is drawn on both sides of the '
@@ -100,7 +100,16 @@ def gen_case(seed, tier):
     cfg = {'target': target, 'settings': settings, 'timeout': timeout, 'shards': rng.choice((1, 2, 3)), 'maxlen': None,
            'topology': 'procs', 'sched': {'kind': 'uniform'}, 'clock': {'mode': 'frozen'}, 'yield_clock': False,
            'hold': hold, 'dur': dur, 'step_cap': 80000}
-    if target in ('cache', 'fanout') and rng.random() < 0.12:
+    if target == 'cache' and rng.random() < 0.08:
+        # a second handle opens the directory (no arguments) while the holder has the write lock, and - enumerated over the
+        # statements of the open - with one statement answered "database is locked" once (what a reader meets during WAL
+        # recovery or the last-close checkpoint of another process): the open waits / retries and finds the stored settings
+        cfg['settings'] = settings = {'disk_min_file_size': mfs, 'cull_limit': 3, 'size_limit': 7654321, 'statistics': 1,
+                                      'eviction_policy': 'least-frequently-used', 'disk_pickle_protocol': 2, 'tag_index': 1}
+        cfg['hold'] = 'long'
+        cfg['dur'] = rng.choice((0.2, 1.0, 3.0))
+        op = {'op': 'open_settings', 'retry': True}
+    elif target in ('cache', 'fanout') and rng.random() < 0.12:
         # a lookup of a file-backed value whose file is replaced by another process (committed) at the lock point, which
         # then keeps the write lock: the lookup falls back to a second look under the lock, with the caller's retry choice
         cfg['replace'] = True
@@ -222,7 +231,12 @@ def physical(path_list):
     """Rows (data columns) and directory listing of every database directory."""
     out = []
     for d in path_list:
-        rv = RawView(d)
+        try:
+            rv = RawView(d, timeout=0)
+            rv.rowids()
+        except sqlite3.OperationalError:
+            return None      # the database is held exclusively at this moment
+
         rows = [(r[0], fp(bytes(r[1]) if isinstance(r[1], (bytes, memoryview)) else r[1]), r[2], r[4], r[7], r[8], r[9], r[10])
                 for r in rv.rows()]
         full = [(r[0], r[3], r[5], r[6]) for r in rv.rows()]
@@ -332,7 +346,8 @@ def _run(case):
     real = [h for h in hist if h['op'].get('op') != 'snap']
     target_rec = real[-1] if real else None
     res = {'result': target_rec['res'] if target_rec else None, 'snaps': snaps, 'final': out.get('final'),
-           'seams': target_rec.get('seams') if target_rec else 0, 'locked': bool(out['fired'].get('lock')),
+           'seams': target_rec.get('seams') if target_rec else 0, 'sql': target_rec.get('sql') if target_rec else 0,
+           'locked': bool(out['fired'].get('lock')),
            'lock_at': state.get('lock_at')}
     for problems, empties, info in out.get('audits', []):
         if problems:
@@ -378,6 +393,11 @@ def judge(case, base, run, violations, probes):
     probes['lock_taken'] = 1
     res, bres = d['result'], b['result']
     if len(d['snaps']) < 2 or len(b['snaps']) < 2:
+        return
+    if any(x is None for x in d['snaps'] + b['snaps']):
+        if res != bres:
+            violations.append({'rule': 'C14/retry-did-not-succeed', 'sig': '%s.%s' % (kind, name),
+                               'detail': 'op %s returned %s while the database was still held, baseline %s' % (json.dumps(op)[:100], res, bres)})
         return
     before, after = d['snaps'][0], d['snaps'][1]
     rows_b, files_b = data_rows(before)
@@ -491,6 +511,36 @@ _BASE = {}
 def run_case(case):
     """Self-contained: a case with a lock point is judged against the same
     case run without the holder."""
+    if case.get('transient'):
+        plain = {k: v for k, v in case.items() if k != 'transient'}
+        key = json.dumps(plain, sort_keys=True)
+        base = _BASE.get(key)
+        if base is None:
+            _BASE.clear()
+            base = _BASE[key] = _run(copy.deepcopy(plain))
+        c = copy.deepcopy(plain)
+        c['faults'] = [{'f': 'sqlerr', 'task': 'v', 'op': len(c['progs']['v']) - 2, 'n': case['transient'], 'msg': 'database is locked'}]
+        r = _run(c)
+        if not base['violations'] and 'detail' in r and 'detail' in base and r['fired'].get('sqlerr'):
+            r['probes']['open_with_transient_busy'] = 1
+            r['nontrivial'] = True
+            failed_loudly = r['detail']['result'] is not None and r['detail']['result'][0] == 'exc'
+            if failed_loudly:
+                # statements of the open that the library does not retry (index creation): the open fails, nothing is altered
+                r['probes']['open_failed_loudly'] = 1
+                if r['detail'].get('final') != base['detail'].get('final'):
+                    r['violations'].append({'rule': 'C14/open-under-contention', 'sig': 'rows-after-failed-open',
+                                            'detail': 'statement %d of the open answered "database is locked" once, the open raised %s and rows or '
+                                                      'files differ afterwards' % (case['transient'], r['detail']['result'][1])})
+            elif r['detail']['result'] != base['detail']['result']:
+                r['violations'].append({'rule': 'C14/open-under-contention', 'sig': 'settings',
+                                        'detail': 'statement %d of the open answered "database is locked" once: the handle reports %s, '
+                                                  'the stored settings are %s' % (case['transient'], r['detail']['result'], base['detail']['result'])})
+            elif r['detail'].get('final') != base['detail'].get('final'):
+                r['violations'].append({'rule': 'C14/open-under-contention', 'sig': 'rows',
+                                        'detail': 'statement %d of the open answered "database is locked" once: rows or files differ afterwards' % case['transient']})
+        r.pop('detail', None)
+        return r
     if not case.get('lock'):
         r = _run(copy.deepcopy(case))
         r.pop('detail', None)
@@ -509,6 +559,11 @@ def run_case(case):
         r['probes'][kk] = r['probes'].get(kk, 0) + vv
     r.pop('detail', None)
     return r
+
+
+def runner_guarded(pid, fn, case):
+    from ..runner import guarded
+    return guarded(pid, fn, case)
 
 
 def run_seed(seed, tier):
@@ -534,12 +589,26 @@ def run_seed(seed, tier):
     for k in points:
         c = copy.deepcopy(case)
         c['lock'] = {'k': k, 'shard': rng.randrange(3)}
-        r = run_case(copy.deepcopy(c))
+        r = runner_guarded(PROPERTY, run_case, copy.deepcopy(c))
         r['case'] = c
         r['first_of_seed'] = False
         results.append(r)
         if r['violations']:
             break
+    if case['progs']['v'][-2]['op'] == 'open_settings' and not any(r['violations'] for r in results):
+        nsql = (base.get('detail') or {}).get('sql') or 0
+        pts = list(range(1, nsql + 1))
+        if tier == 'quick' and len(pts) > 8:
+            pts = sorted(rng.sample(pts, 8))
+        for n in pts:
+            c = copy.deepcopy(case)
+            c['transient'] = n
+            r = runner_guarded(PROPERTY, run_case, copy.deepcopy(c))
+            r['case'] = c
+            r['first_of_seed'] = False
+            results.append(r)
+            if r['violations']:
+                break
     base.pop('detail', None)
     results[0].setdefault('extra', {})['lock_points_enumerated'] = len(points)
     return results
